@@ -2,7 +2,7 @@
 mod c08;
 mod c14;
 mod c16;
-mod cases;
+use gen_project::cases;
 mod probe;
 
 fn main() {
